@@ -8,7 +8,7 @@ from typing import Dict, List
 from ..context import Ctx
 from ..kernel import expand1, expand, placeholder_closure, xshow
 from ..loader import AnalysisError, norm_stmt
-from ..paths import show
+from ..paths import N, show
 from ..resolve import own_nodes
 from . import c12
 
@@ -114,14 +114,18 @@ def rule_carry(ctx: Ctx):
         rep.check(ph is not None and eng == ph, "C17.carry", ss.loc(), "the saved processing mode is what the rebuilt engine gets", ss.key,
                   f"_get_engine({eng}) with saved value {ph}")
     # listeners: saved keys are re-attached
+    from ..shapes import derives_from
+
     lkey = popped.get("_listeners")
     reattached = False
-    for p in ctx.paths(ss, inline=None, exc_edges="none"):
+    for p in ctx.paths(ss, inline=None, exc_edges="none", unroll=1):
+        pop = next((e for e in p.calls() if show(e.term.func) == f"{param}.pop" and e.term.args and isinstance(e.term.args[0], ast.Constant)
+                    and e.term.args[0].value == "_listeners"), None)
         for e in p.calls():
-            if show(e.term.func) in ("self.add_listener", "self._register_callbacks") and lkey and \
-                    lkey in placeholder_closure(e.term, p.events):
+            if show(e.term.func) in ("self.add_listener", "self._register_callbacks") and lkey and pop is not None and \
+                    (f"$c{pop.idx}" in placeholder_closure(e.term, p.events) or
+                     any(derives_from(p, a_, xshow(N(f"$c{pop.idx}"), p.events)) for a_ in e.term.args)):
                 reattached = True
-        break
     rep.check(reattached, "C17.carry", ss.loc(), "the saved listeners are attached to the clone", ss.key, "saved `_listeners` not re-attached")
 
 
@@ -274,14 +278,18 @@ def rule_attach(ctx: Ctx):
 
     def passes(fn):
         joint, separate = {}, {}
-        for p in ctx.paths(fn, inline=None, exc_edges="none", comps_for_loops=True):
+        for p in ctx.paths(fn, inline=None, exc_edges="none", comps_for_loops=True, unroll=1):
             if p.kind == "raise":
                 continue
             for e in p.calls():
                 f = show(e.term.func)
                 if f == "self._register_callbacks":
                     arg = xshow(e.term.args[0], p.events) if e.term.args else "[]"
-                    if arg not in ("[]", "()", "list()", "tuple()"):
+                    raw = e.term.args[0] if e.term.args else None
+                    filled = isinstance(raw, ast.Name) and raw.id.startswith("$l") and any(
+                        c_.kind == "call" and isinstance(c_.term.func, ast.Attribute) and c_.term.func.attr in ("append", "extend", "insert")
+                        and show(c_.term.func.value) == raw.id for c_ in p.events[: e.idx])
+                    if arg not in ("[]", "()", "list()", "tuple()") or filled:
                         joint.setdefault(id(e.node), (e, arg, expand1(e.term.args[0], p.events)))
                 elif f in ("self.add_listener", "self._add_listener"):
                     separate.setdefault(id(e.node), (e, ", ".join(xshow(a_, p.events) for a_ in e.term.args),
@@ -314,9 +322,44 @@ def rule_attach(ctx: Ctx):
                               "add_listener precedes _register_callbacks")
                 break
         fj, fs = filt(sj[0][2]), filt(ssep[0][2])
-        rep.check(fj is not None and fs is not None and fj != fs, "C17.attach", ss.loc(),
-                  "constructor-time and late listeners are restored by their own kind of pass, selected by the recorded attachment pass", ss.key,
-                  f"joint pass over [{sj[0][1]}], separate pass over [{ssep[0][1]}]")
+        if fj is not None and fs is not None:
+            rep.check(fj != fs, "C17.attach", ss.loc(),
+                      "constructor-time and late listeners are restored by their own kind of pass, selected by the recorded attachment pass",
+                      ss.key, f"joint pass over [{sj[0][1]}], separate pass over [{ssep[0][1]}]")
+        else:
+            # not written as two filters (e.g. one grouping loop): what must still hold is that both kinds of pass take their
+            # listeners from the saved record and that the recorded marks are consulted to tell them apart
+            saved = None
+            consulted = False
+            from_record = {"joint": False, "separate": False}
+            for p in ctx.paths(ss, inline=None, exc_edges="none", unroll=1):
+                evs = p.events
+                pop = next((e for e in p.calls() if show(e.term.func) == f"{ss.params[1]}.pop" and e.term.args
+                            and isinstance(e.term.args[0], ast.Constant) and e.term.args[0].value == "_listeners"), None)
+                if pop is None:
+                    continue
+                saved = xshow(N(f"$c{pop.idx}"), evs)
+
+                from ..shapes import derives_from
+
+                def derived(t, evs=evs, p=p):
+                    return derives_from(p, t, saved)
+
+                for e in p.calls():
+                    f = show(e.term.func)
+                    if f == "self._register_callbacks" and e.term.args and derived(e.term.args[0]):
+                        from_record["joint"] = True
+                    if f in ("self.add_listener", "self._add_listener") and e.term.args and derived(e.term.args[0]):
+                        from_record["separate"] = True
+                for b in p.of("branch"):
+                    if b.term is not None and saved in xshow(b.term, evs):
+                        consulted = True
+                for c_ in p.of("comp"):
+                    if saved in xshow(c_.term, evs) and c_.term.generators[0].ifs:
+                        consulted = True
+            rep.check(all(from_record.values()) and consulted, "C17.attach", ss.loc(),
+                      "constructor-time and late listeners are restored by their own kind of pass, selected by the recorded attachment pass",
+                      ss.key, f"from the saved record: {from_record}; recorded marks consulted: {consulted}")
         # the attach sites must record different marks for the two kinds
         marks = {}
         for fn_ in (ctx.fn("StateMachine._register_callbacks"), al):
